@@ -165,7 +165,8 @@ def h_int_grid(c, n, bf_kind, k):
         raise PathAbort()
     bf = {"half": 0.5, "one": 1.0}[bf_kind]
     dt = c.pick("dtype", ["int64", "int32", "float64"])
-    out = PointsToCuntzMST(bf=bf, furcations=k, sort=False)(np.array(pts, dtype=dt))
+    with mst_stubs(c):
+        out = PointsToCuntzMST(bf=bf, furcations=k, sort=False)(np.array(pts, dtype=dt))
     got = [int(v) for v in out.pid()]
     D = [[math.dist(p, q) for q in pts] for p in pts]
     pid, acc, nchild, conn = [-1] * n, [0.0] * n, [0] * n, [True] + [False] * (n - 1)
